@@ -697,6 +697,13 @@ func (c *Ctx) ruleInverseTables(rr *RuleRep) {
 			})
 		}
 	}
+	if !(len(tbl) == 3 && tbl[0] == 0 && tbl[2] == 1 && tbl[4] == 2) {
+		// computed rather than selected (`QoS(bits >> 1)` behind a range test): the table by evaluation over the four
+		// values of the two bits
+		if t2, _, decided := c.inboundQoSByBits(p); decided {
+			tbl = t2
+		}
+	}
 	if len(tbl) == 3 && tbl[0] == 0 && tbl[2] == 1 && tbl[4] == 2 {
 		rr.OK("pktPublish.Parse/QoS", p.Pos(), "QoS table {0x00:0, 0x02:1, 0x04:2} under mask 0x06 is the inverse of Pack's")
 	} else {
